@@ -42,11 +42,14 @@ def pathEscape (s : String) : String := String.join (s.toUTF8.toList.map escByte
 def ridToPath (rid pref : String) : String :=
   if rid == "" then "" else pref ++ (pathEscape rid).replace "." "/"
 
-/-- `json.Marshal` of a string (the characters that occur in paths and keys). -/
+/-- `json.Marshal` of a string (valid UTF-8): `encoding/json.appendString` with HTML escaping. -/
 def jsonStr (s : String) : String :=
   "\"" ++ String.join (s.toList.map fun c =>
     if c == '"' then "\\\"" else if c == '\\' then "\\\\"
+    else if c == '\n' then "\\n" else if c == '\r' then "\\r" else if c == '\t' then "\\t"
+    else if c.toNat == 8 then "\\b" else if c.toNat == 12 then "\\f"
     else if c == '<' then "\\u003c" else if c == '>' then "\\u003e" else if c == '&' then "\\u0026"
+    else if c.toNat == 0x2028 then "\\u2028" else if c.toNat == 0x2029 then "\\u2029"
     else if c.toNat < 32 then "\\u00" ++ (hexDigitU (c.toNat / 16)).toString.toLower ++ (hexDigitU (c.toNat % 16)).toString.toLower
     else c.toString) ++ "\""
 
